@@ -32,13 +32,14 @@ pub enum Hist {
 #[derive(Debug, Clone)]
 pub enum Case {
     Noise { hist: Hist, g: Noise, m: SizedPayload, fixed: bool, cap_sel: u16 },
-    Cut { m1: SizedPayload, k: u16, m2: SizedPayload },
+    Cut { m1: SizedPayload, k: u16, m2: SizedPayload, fixed: bool },
 }
 
 #[derive(Debug, Clone)]
 pub enum Input {
     Noise { prefix: Vec<u8>, after: u8, cap: Option<usize>, noise: Vec<u8>, payload: Vec<u8> },
-    Cut { m1: Vec<u8>, k: usize, m2: Vec<u8> },
+    /// `cap`: None = growable buffer, Some(n) = ArrayBuf<n> with n >= max(|m1|, |m2|)
+    Cut { m1: Vec<u8>, k: usize, m2: Vec<u8>, cap: Option<usize> },
 }
 
 fn noise_part<K: BufKind>(prefix: &[u8], after: u8, g: &[u8], m: &[u8], obs: &mut Obs) -> Result<bool, Fail> {
@@ -165,7 +166,7 @@ pub fn eval_input(i: &Input, obs: &mut Obs) -> Result<(), Fail> {
             obs.nontrivial_if(sc != "noise:plain" && sc != "noise:empty");
             Ok(())
         }
-        Input::Cut { m1, k, m2 } => {
+        Input::Cut { m1, k, m2, cap } => {
             let f1 = ref_frame_struct(m1);
             if !f1.cut_admissible(*k) {
                 obs.class("precondition-miss:cut-not-admissible");
@@ -175,7 +176,13 @@ pub fn eval_input(i: &Input, obs: &mut Obs) -> Result<(), Fail> {
             let mut s = f1.bytes[..*k].to_vec();
             s.extend_from_slice(&f2);
             let expect = vec![(*k + 8, Ev::Err(DecodeErr::DiscardedBytes(*k))), (s.len(), Ev::Msg(m2.clone()))];
-            let (evs, fin) = drive::push_decoder::<VecK>(&s);
+            let (evs, fin) = match cap {
+                None => drive::push_decoder::<VecK>(&s),
+                Some(n) => with_cap!(*n, K => drive::push_decoder::<K>(&s)),
+            };
+            if cap.is_some() {
+                obs.class("cut-frame:fixed-buffer");
+            }
             let same_seq = evs.len() == expect.len() && evs.iter().zip(expect.iter()).all(|(a, b)| a.1 == b.1) && evs.last().map(|e| e.0) == expect.last().map(|e| e.0);
             ensure!(
                 same_seq && fin.is_none(),
@@ -233,7 +240,7 @@ impl Prop for C08 {
                 (Just(hist), g, Just(m), Just(fixed), Just(cap_sel))
             })
             .prop_map(|(hist, g, m, fixed, cap_sel)| Case::Noise { hist, g, m, fixed, cap_sel });
-        let fam2 = (moderate_payload(), any::<u16>(), moderate_payload()).prop_map(|(m1, k, m2)| Case::Cut { m1, k, m2 });
+        let fam2 = (moderate_payload(), any::<u16>(), moderate_payload(), prop::bool::weighted(0.4)).prop_map(|(m1, k, m2, fixed)| Case::Cut { m1, k, m2, fixed });
         prop_oneof![3 => fam1, 1 => fam2].boxed()
     }
 
@@ -288,12 +295,14 @@ impl Prop for C08 {
                 let _ = cap_sel;
                 Input::Noise { prefix, after, cap, noise: g.bytes(), payload }
             }
-            Case::Cut { m1, k, m2 } => {
+            Case::Cut { m1, k, m2, fixed } => {
                 let m1 = m1.bytes();
                 let f = ref_frame_struct(&m1);
                 let adm: Vec<usize> = (8..=f.bytes.len()).filter(|k| f.cut_admissible(*k)).collect();
                 let k = if adm.is_empty() { 8 } else { adm[pick(*k, adm.len())] };
-                Input::Cut { m1, k, m2: m2.bytes() }
+                let m2 = m2.bytes();
+                let cap = if *fixed { cap_at_least(m1.len().max(m2.len())) } else { None };
+                Input::Cut { m1, k, m2, cap }
             }
         }
     }
@@ -310,8 +319,9 @@ impl Prop for C08 {
                 kv.put("cap", cap.map(|c| c.to_string()).unwrap_or_else(|| "none".into()));
                 kv.put_b("noise", noise).put_b("payload", payload);
             }
-            Input::Cut { m1, k, m2 } => {
+            Input::Cut { m1, k, m2, cap } => {
                 kv.put("kind", "cut").put_b("m1", m1).put_u("k", *k as u64).put_b("m2", m2);
+                kv.put("cap", cap.map(|c| c.to_string()).unwrap_or_else(|| "none".into()));
             }
         }
         kv
@@ -331,7 +341,19 @@ impl Prop for C08 {
                 }
                 Ok(Input::Noise { prefix: kv.get_b("prefix")?, after: kv.get_u("after")? as u8, cap, noise: kv.get_b("noise")?, payload: kv.get_b("payload")? })
             }
-            "cut" => Ok(Input::Cut { m1: kv.get_b("m1")?, k: kv.get_u("k")? as usize, m2: kv.get_b("m2")? }),
+            "cut" => {
+                let cap = match kv.get_opt("cap").unwrap_or("none") {
+                    "none" => None,
+                    s => Some(s.parse::<usize>().map_err(|e| e.to_string())?),
+                };
+                let (m1, m2) = (kv.get_b("m1")?, kv.get_b("m2")?);
+                if let Some(c) = cap {
+                    if !CAPS.contains(&c) || c < m1.len().max(m2.len()) {
+                        return Err(format!("capacity {c} not in dispatch set or smaller than a payload"));
+                    }
+                }
+                Ok(Input::Cut { m1, k: kv.get_u("k")? as usize, m2, cap })
+            }
             k => Err(format!("unknown kind {k}")),
         }
     }
@@ -357,7 +379,8 @@ impl Prop for C08 {
             for k in 8..=fr.bytes.len() {
                 if fr.cut_admissible(k) {
                     for m2 in [&payloads[0], &payloads[7]] {
-                        if !emit(Input::Cut { m1: m1.clone(), k, m2: m2.clone() }, f) {
+                        let cap = if k % 2 == 0 { None } else { cap_at_least(m1.len().max(m2.len())) };
+                        if !emit(Input::Cut { m1: m1.clone(), k, m2: m2.clone(), cap }, f) {
                             return;
                         }
                     }
